@@ -655,9 +655,21 @@ def generate():
     lines.append("(* GENERATED by tools/gen/c20_skeleton.py from %s -- do not edit *)" % ", ".join(m.rel for m in tr.modules + [tr.logger_mod]))
     lines.append("(* SUMMARY %s *)" % json.dumps(tr.counts, sort_keys=True))
     lines.append("From Coq Require Import String.")
-    lines.append("From AQ Require Import lib.Base model.LogErase.")
+    lines.append("From AQ Require Import lib.Base model.LogErase model.LogEnc.")
     lines.append("Open Scope string_scope.")
     lines.append("Open Scope Z_scope.")
+    lines.append("")
+    members, keys = packet_type_tables(tr)
+    lines.append("(* members of packet.py's QuicPacketType / keys of logger.py's PACKET_TYPE_NAMES *)")
+    lines.append("Definition packet_type_members : list string := [%s]." % "; ".join(cstr(m) for m in members))
+    lines.append("Definition packet_type_name_keys : list string := [%s]." % "; ".join(cstr(k) for k in keys))
+    lines.append("Definition packet_type_named : list bool := [%s]." % "; ".join("true" if m in keys else "false" for m in members))
+    lines.append("(* EXTRACT: exec_logenc *)")
+    strict = http3_decode_strict(tr)
+    lines.append("(* error mode of the .decode(...) calls in QuicLoggerTrace._encode_http3_headers: true = strict UTF-8 *)")
+    lines.append("Definition http3_decode_strict : bool := %s." % ("true" if strict else "false"))
+    lines.append("Definition exec_logenc (toks : list Z) : list Z :=")
+    lines.append("  exec_logenc_with packet_type_named http3_decode_strict toks.")
     lines.append("")
     lines.append("Definition logger_methods : list (string * stmt) := [")
     lines.append(";\n".join("  (* %s *)\n  (%s, %s)" % (where, cstr(name), body) for name, where, body in logger_methods))
@@ -683,6 +695,77 @@ def generate():
         f.write(text)
     os.replace(tmp, out)
     return out
+
+
+TOTAL_ERROR_MODES = {"replace", "backslashreplace", "ignore", "surrogateescape", "namereplace", "xmlcharrefreplace"}
+TOTAL_CODECS = {"latin-1", "latin1", "latin_1", "iso-8859-1", "iso8859-1", "l1"}
+
+
+def http3_decode_strict(tr):
+    """True if QuicLoggerTrace._encode_http3_headers decodes header bytes with a strict UTF-8 decoder (can raise),
+    False if every decode in it is total; anything else stops the translation."""
+    fn = tr.logger_mod.classes["QuicLoggerTrace"].get("_encode_http3_headers")
+    if fn is None:
+        raise RuntimeError("quic/logger.py: QuicLoggerTrace._encode_http3_headers not found")
+    modes = []
+    for n in ast.walk(fn):
+        if isinstance(n, ast.Call) and isinstance(n.func, ast.Attribute) and n.func.attr == "decode":
+            args = [a.value if isinstance(a, ast.Constant) else None for a in n.args]
+            kws = {k.arg: (k.value.value if isinstance(k.value, ast.Constant) else None) for k in n.keywords}
+            codec = args[0] if args else kws.get("encoding", "utf-8")
+            errors = args[1] if len(args) > 1 else kws.get("errors", "strict")
+            if not isinstance(codec, str) or not isinstance(errors, str):
+                raise RuntimeError("quic/logger.py:%d decode() with non-constant codec / error mode" % n.lineno)
+            codec = codec.lower()
+            if codec in TOTAL_CODECS:
+                modes.append(False)
+            elif codec in ("utf8", "utf-8", "utf_8", "ascii"):
+                if errors == "strict":
+                    modes.append(True)
+                elif errors in TOTAL_ERROR_MODES:
+                    modes.append(False)
+                else:
+                    raise RuntimeError("quic/logger.py:%d decode() error mode %r not understood" % (n.lineno, errors))
+            else:
+                raise RuntimeError("quic/logger.py:%d decode() codec %r not understood" % (n.lineno, codec))
+        elif isinstance(n, ast.Call) and isinstance(n.func, ast.Name) and n.func.id == "str" and len(n.args) + len(n.keywords) > 1:
+            raise RuntimeError("quic/logger.py:%d str(bytes, ...) decoding not understood" % n.lineno)
+    if not modes:
+        # no decode at all (e.g. hex / repr of the bytes): total
+        return False
+    return any(modes)
+
+
+def packet_type_tables(tr):
+    """(member names of QuicPacketType in quic/packet.py, QuicPacketType.<X> keys of PACKET_TYPE_NAMES in quic/logger.py)"""
+    ptree = ast.parse(open(os.path.join(tr.base, "quic", "packet.py")).read())
+    members = None
+    for node in ptree.body:
+        if isinstance(node, ast.ClassDef) and node.name == "QuicPacketType":
+            members = []
+            for st in node.body:
+                if isinstance(st, ast.Assign) and len(st.targets) == 1 and isinstance(st.targets[0], ast.Name):
+                    members.append(st.targets[0].id)
+                elif isinstance(st, ast.Expr) and isinstance(st.value, ast.Constant):
+                    continue
+                else:
+                    raise RuntimeError("quic/packet.py: QuicPacketType has a member the translator does not understand: %s" % ast.unparse(st)[:80])
+    if not members:
+        raise RuntimeError("quic/packet.py: enum QuicPacketType not found")
+    keys = None
+    for node in tr.logger_mod.tree.body:
+        if isinstance(node, ast.Assign) and any(isinstance(t, ast.Name) and t.id == "PACKET_TYPE_NAMES" for t in node.targets):
+            if not isinstance(node.value, ast.Dict):
+                raise RuntimeError("quic/logger.py: PACKET_TYPE_NAMES is not a dict literal")
+            keys = []
+            for k in node.value.keys:
+                if isinstance(k, ast.Attribute) and isinstance(k.value, ast.Name) and k.value.id == "QuicPacketType":
+                    keys.append(k.attr)
+                else:
+                    raise RuntimeError("quic/logger.py: PACKET_TYPE_NAMES key not of the form QuicPacketType.X: %s" % ast.unparse(k)[:60])
+    if keys is None:
+        raise RuntimeError("quic/logger.py: PACKET_TYPE_NAMES not found")
+    return members, keys
 
 
 def unguarded_uses(mod, cname, f, inside, is_helper):
